@@ -254,6 +254,21 @@ class BV:
             acc = acc + BV.mux(self.m, o.b[i], part, BV.const(self.m, w, 0))
         return acc
 
+    def divmod_const(self, c):
+        """unsigned division by a constant: restoring long division, MSB first"""
+        m = self.m
+        w = len(self.b)
+        cw = max(c.bit_length() + 1, 2)
+        r = BV.const(m, cw, 0)
+        cc = BV.const(m, cw, c)
+        q = [0] * w
+        for i in range(w - 1, -1, -1):
+            r = BV(m, [self.b[i]] + r.b[:-1])
+            ge = m.NOT(r.ult(cc))
+            r = BV.mux(m, ge, r - cc, r)
+            q[i] = ge
+        return BV(m, q), r.zext(w) if cw <= w else r.trunc(w)
+
     # -- predicates (BDD node results) ----------------------------------------------
     def eq(self, o):
         o = self._coerce(o)
@@ -418,5 +433,8 @@ class TermBV:
             if c and c & (c - 1) == 0:
                 n = c.bit_length() - 1
                 return a.shr(n) if op == 'udiv' else (a & (c - 1))
-            raise Unsupported('division by a non power of two')
+            if c:
+                q, r = a.divmod_const(c)
+                return q if op == 'udiv' else r
+            raise Unsupported('division by a non-constant')
         raise Unsupported('operation %s' % op)
